@@ -95,6 +95,14 @@ class ZoneProcessorCacheImpl: public ZoneProcessorCache {
 
     ZS mZoneProcessors[SIZE];
     uint8_t mCurrentIndex = 0;
+
+#if SEANDST_ACETIME_VERIF
+  public:
+    /** Verification hook: read-only view of the cache state. */
+    uint8_t verifCurrentIndex() const { return mCurrentIndex; }
+    /** Verification hook: read-only access to slot i. */
+    const ZS& verifProcessor(uint8_t i) const { return mZoneProcessors[i]; }
+#endif
 };
 
 #if 1
